@@ -135,7 +135,12 @@ def main():
     limit = a.deadline or (H.deadline_quick if tier == 'quick' else H.deadline_thorough)
     deadline = t0 + limit
     log('%s tier=%s seed=%d spaces=%d workers=%d' % (prop, tier, seed, len(spaces), a.workers))
+    bg = H.start_background(tier) if hasattr(H, 'start_background') and not a.only else None
     results = explore.explore_spaces(prop, spaces, a.workers, deadline, log=log)
+    cross = None
+    if bg is not None:
+        cross = H.finish_background(bg)
+        log('cross-engine check: %s %s' % (cross[0], {k: v for k, v in cross[1].items() if k in ('harness', 'seconds', 'checks', 'failed_checks')}))
 
     # ---------------- aggregate
     total = explore.Stats()
@@ -214,6 +219,11 @@ def main():
         status = 2 if not confirmed else 1
     if total.completed == 0 and not confirmed:
         status = 2
+    cross_problem = None
+    if cross is not None and cross[0] != 'ok' and status == 0:
+        # engine B refutes or cannot decide what engine A accepted: the engines disagree -> inconclusive
+        status = 2
+        cross_problem = cross[0]
 
     fns = sorted(total.fns)
     doc = {
@@ -240,6 +250,7 @@ def main():
             'known_findings_hit': [{'clause': c, 'shape': s, 'paths': n} for (c, s), (_, _, n) in known_hits.items()],
             'model_native_mismatches': mismatches[:5], 'unsupported': [u[1] for u in unsupported[:3]],
             'unreproduced_counterexamples': unreproduced[:5], 'incomplete_spaces': incomplete[:5],
+            'cross_engine': cross[1] if cross else None,
         },
         'assumptions': H.assumptions(),
     }
@@ -267,6 +278,9 @@ def main():
             log(json.dumps(u, default=str)[:1500])
     if incomplete:
         print('INCONCLUSIVE property=%s reason=deadline: %d spaces unfinished' % (prop, len(incomplete)))
+    if cross_problem:
+        print('INCONCLUSIVE property=%s reason=cross-engine check (Kani) %s' % (prop, cross_problem))
+        log(str(cross[1].get('tail', ''))[-800:])
     print('%s %s: spaces=%d paths=%d (completed %d, panicking %d, cut %d) obligations=%d discharged=%d solver_queries=%d '
           'solver_s=%.1f validated_natively=%d wall=%.1fs -> %s' %
           (prop, tier, len(spaces), total.paths, total.completed, total.panics, total.cut, total.obligations,
